@@ -6,6 +6,13 @@ from tv.core import Result, short_exc
 from tv.designs import Oracle, analyze, simulate, try_build
 
 
+def tier_opts(tier: str) -> dict:
+    """size bounds of the generated designs per tier"""
+    if tier == "thorough":
+        return dict(max_space=2048, nvals=768, max_methods=5)
+    return dict(max_space=512, nvals=256)
+
+
 def shape_labels(an) -> list[str]:
     labs = [an.spec.get("sched", "eager")]
     kinds = {stc["kind"] for stc in an.structs.values()}
